@@ -287,8 +287,13 @@ var specDec = pbt.Spec[DecCase]{
 	Prop: "C18", Name: "percent-decoder-total",
 	Gen: func(t *rapid.T) DecCase {
 		alphabet := []byte("%%%%0123456789abcdefABCDEFgGxyz \x7f\x80\xff~")
-		if rapid.Bool().Draw(t, "arbitrary") {
+		switch rapid.IntRange(0, 2).Draw(t, "mode") {
+		case 0:
 			return DecCase{In: string(rapid.SliceOfN(rapid.Byte(), 0, 64).Draw(t, "bytes"))}
+		case 1:
+			// token soup: complete escapes, truncated escapes and plain bytes
+			toks := []string{"%", "%4", "%41", "%zz", "%c3", "%A9", "a", " ", "\xc3\xa9", "%%", "4", "G"}
+			return DecCase{In: strings.Join(rapid.SliceOfN(rapid.SampledFrom(toks), 0, 8).Draw(t, "tokens"), "")}
 		}
 		return DecCase{In: string(rapid.SliceOfN(rapid.SampledFrom(alphabet), 0, 12).Draw(t, "pct"))}
 	},
